@@ -344,8 +344,8 @@ func (c *Ctx) equalLenAtCallers(callee *ssa.Function, ia, ib, depth int) (bool, 
 
 func (c *Ctx) panicTable() []panicDischarge {
 	return []panicDischarge{
-		{"lz.(*WrappedParser).Parse", "unexpected ErrFullBuffer", "verify", "Shrink frees ≥ 1 byte when ShrinkSize < BufferSize, so ReadFrom cannot report 0 bytes with ErrFullBuffer",
-			viaReq(reqByText("BufConfig", "ShrinkSize < BufferSize"))},
+		// no entry for a panic("unexpected ErrFullBuffer") in WrappedParser.Parse: ReadFrom's own full-buffer status is
+		// excluded by Verify (ShrinkSize < BufferSize), but the reader's own error may be that very value (D28)
 		{"lz.(*WrappedParser).Reset", "", "verify", "Reset(nil) fails only for len(data) > BufferSize; len(nil) = 0 and BufferSize ≥ 1",
 			viaReq(reqByText("BufConfig", "1 ≤ BufferSize"))},
 		{"lz.(*gsap).sort", "n too large", "verify", "len(Data) ≤ BufferSize ≤ MaxInt32",
